@@ -202,7 +202,7 @@ let job_frag (job : Sx.t) : string =
   let safe = TSemSafe.safe_program_ok p in
   let cov = Fragment.covered_program lfuel p in
   let total = safe && TSemTotal.params_ok p && TSemTotal.fuel_enough lfuel p in
-  let wtcov = TSemSemFullWt.wt_covered (nat_of_int 400) p in
+  let wtcov = TSemSemFullWt.wt_covered (nat_of_int 400) p && SemFuel.sem_fuel_enough lfuel p in
   (* optional (inss ..): how many of the inputs are canonical encodings *)
   let canon = match Sx.try_field job "inss" with
     | None -> ""
